@@ -487,6 +487,9 @@ func c10Random(r *Rng) C10Case {
 func init() {
 	runners["C10child"] = func(seed uint64, n int, outDir string, replay string) {
 		cases := loadReplayCases[C10Case](replay)
+		// an application that once installed its own uniqueItems checker and restored the default the
+		// documented way (nil) is a legal configuration of the library
+		openapi3.RegisterArrayUniqueItemsChecker(nil)
 		// hostile array indexes must not take the sandbox down: an allocation beyond 3 GiB of
 		// address space is a fatal error of the child, reported as such
 		lim := &syscall.Rlimit{Cur: 3 << 30, Max: 3 << 30}
